@@ -277,6 +277,18 @@ def operations(mesh, tier):
         op("concatenate(copy shifted)", lambda m, ext=ext: fem.mesh.concatenate([m, m.translate(ext, axis=0)]), lambda v, m: 2 * v, post="duplicates-expected")
         op("concatenate+merge(decimals=None)", lambda m, ext=ext: fem.mesh.concatenate([m, m.translate(ext, axis=0)]).merge_duplicate_points(), lambda v, m: 2 * v, post="merge:None")
         op("concatenate+merge(decimals=8)", lambda m, ext=ext: fem.mesh.concatenate([m, m.translate(ext, axis=0)]).merge_duplicate_points(decimals=8), lambda v, m: 2 * v, post="merge:8")
+        if ct in ("quad", "hexahedron"):
+            # parts with DIFFERENT numbers of points (a coarse block placed beyond the mesh, in both orders, and three parts)
+            def coarse(m):
+                lo, hi = m.points.min(0), m.points.max(0)
+                a = lo.copy()
+                a[0] = hi[0] + 0.5
+                b = a + 1.0
+                return (fem.Rectangle(a=tuple(a), b=tuple(b), n=2) if m.dim == 2 else fem.Cube(a=tuple(a), b=tuple(b), n=2))
+
+            op("concatenate(self, coarse block)", lambda m: fem.mesh.concatenate([m, coarse(m)]), lambda v, m: v + 1.0, post="duplicates-expected")
+            op("concatenate(coarse block, self)", lambda m: fem.mesh.concatenate([coarse(m), m]), lambda v, m: v + 1.0, post="duplicates-expected")
+            op("concatenate(self, coarse block, shifted copy)", lambda m, ext=ext: fem.mesh.concatenate([m, coarse(m), m.translate(ext + 2.0, axis=0)]), lambda v, m: 2 * v + 1.0, post="duplicates-expected")
         op("container(merge=True).stack", lambda m, ext=ext: fem.MeshContainer([m, m.translate(ext, axis=0)], merge=True).stack(), lambda v, m: 2 * v, post="merge:None")
         op("stack(self,self)+merge_cells", lambda m: fem.mesh.stack([m, m]).merge_duplicate_cells(), post="same-cells-set")
         op("disconnect", lambda m: m.disconnect(), post="disconnect")
